@@ -8,6 +8,7 @@ import (
 	"go/token"
 	"go/types"
 	"golang.org/x/tools/go/packages"
+	"reflect"
 	"strings"
 
 	"dstverif/load"
@@ -272,6 +273,7 @@ func (e *Env) RCursor(withFileOrder bool) {
 	e.Run.Floor("R-CURSOR", "line table stores", nLines, 2)
 	e.Run.Floor("R-CURSOR", "comment list stores", nComments, 2)
 	e.lineBreaksAdvance(c)
+	e.RInnerLineStarts()
 	e.RSearchLoops(e.pkgs(load.PkgDecorator))
 	if withFileOrder {
 		e.restoreFileOrder(c)
@@ -1251,6 +1253,7 @@ func (e *Env) fileSizeCovers(c *schema.Ctx) {
 		}
 	}
 	okInit, okGrow, nGrow := false, true, 0
+	growOver := map[string]bool{}
 	if endObj != nil {
 		ast.Inspect(fd.Body, func(n ast.Node) bool {
 			as, ok := n.(*ast.AssignStmt)
@@ -1267,6 +1270,67 @@ func (e *Env) fileSizeCovers(c *schema.Ctx) {
 			}
 			// raised to X+1, and only where X >= end is known
 			nGrow++
+			// where the store runs: at its own place, or — inside a local closure — at every call
+			// of the closure
+			sites := []ast.Node{as}
+			ast.Inspect(fd.Body, func(m ast.Node) bool {
+				def, ok := m.(*ast.AssignStmt)
+				if !ok || len(def.Lhs) != 1 || len(def.Rhs) != 1 {
+					return true
+				}
+				fl, ok := def.Rhs[0].(*ast.FuncLit)
+				fid, ok2 := def.Lhs[0].(*ast.Ident)
+				if !ok || !ok2 || !(fl.Body.Pos() <= as.Pos() && as.End() <= fl.Body.End()) {
+					return true
+				}
+				sites = nil
+				ast.Inspect(fd.Body, func(x ast.Node) bool {
+					if call, ok := x.(*ast.CallExpr); ok {
+						if cid, ok := call.Fun.(*ast.Ident); ok && info.Uses[cid] != nil && info.Uses[cid] == info.Defs[fid] {
+							sites = append(sites, call)
+						}
+					}
+					return true
+				})
+				return true
+			})
+			for _, site := range sites {
+				as := site
+				ast.Inspect(fd.Body, func(m ast.Node) bool {
+					// the loop around the store: a range over, or an index loop up to the length of,
+					// the comment list / the line table
+					var header []ast.Node
+					var body *ast.BlockStmt
+					switch l := m.(type) {
+					case *ast.RangeStmt:
+						header, body = []ast.Node{l.X}, l.Body
+					case *ast.ForStmt:
+						body = l.Body
+						for _, h := range []ast.Node{l.Init, l.Cond, l.Post} {
+							if h != nil && !reflect.ValueOf(h).IsNil() {
+								header = append(header, h)
+							}
+						}
+					}
+					if body == nil || !(body.Pos() <= as.Pos() && as.End() <= body.End()) {
+						return true
+					}
+					for _, h := range header {
+						ast.Inspect(h, func(x ast.Node) bool {
+							if ex, ok := x.(ast.Expr); ok {
+								if e.isRestorerField(info, ex, "comments") {
+									growOver["comments"] = true
+								}
+								if e.isRestorerField(info, ex, "lines") {
+									growOver["lines"] = true
+								}
+							}
+							return true
+						})
+					}
+					return true
+				})
+			}
 			// … or through a helper that returns its first argument, or its second plus one when
 			// the second is not below the first
 			if call, isCall := as.Rhs[0].(*ast.CallExpr); isCall && as.Tok == token.ASSIGN && len(call.Args) == 2 {
@@ -1306,6 +1370,10 @@ func (e *Env) fileSizeCovers(c *schema.Ctx) {
 	}
 	e.Run.Check("R-CURSOR", "fileSize covers the cursor and only grows", pos, okInit && okRet && okGrow && nGrow > 0,
 		"expected an accumulator that starts at int(r.cursor), is only raised to X+1 where X >= it is known, and is returned minus r.base — so the registered size is ≥ every position assigned")
+	if nGrow > 0 && okGrow {
+		e.Run.Check("R-CURSOR", "fileSize covers every comment and every line start", pos, growOver["comments"] && growOver["lines"],
+			fmt.Sprintf("the size is raised in a loop over the comment list: %v, over the line table: %v — a comment at the end of the file ends behind the cursor, and so does the line start its line break records: a file registered with a smaller size has positions outside itself (token.File panics or maps them to the next file)", growOver["comments"], growOver["lines"]))
+	}
 }
 
 // ---------------------------------------------------------------------------------------------
@@ -2229,4 +2297,47 @@ func (e *Env) RPackageCommentGap() {
 		})
 	}
 	e.Run.Analysed("cursor advances behind the decoration loop", n)
+}
+
+// RInnerLineStarts (R-CURSOR): where the restorer walks over a text (a multi-line comment, a raw
+// string literal) to record the line starts inside it, it records one for exactly the newline
+// characters: the append to the line table inside a `for i, ch := range text` loop is reached
+// under `ch == '\n'` and nothing else.
+func (e *Env) RInnerLineStarts() {
+	pkg := e.Prog.Pkg(load.PkgDecorator)
+	info := pkg.TypesInfo
+	c := e.Sib.Ctx[load.PkgDecorator]
+	n := 0
+	for _, fd := range load.AllFuncDecls(pkg) {
+		if fd.Body == nil || !isRestorePath(fd) || strings.HasSuffix(e.Prog.File(fd.Pos()), "-generated.go") {
+			continue
+		}
+		ast.Inspect(fd.Body, func(nd ast.Node) bool {
+			rs, ok := nd.(*ast.RangeStmt)
+			if !ok || rs.Value == nil {
+				return true
+			}
+			if b, ok := info.TypeOf(rs.X).Underlying().(*types.Basic); !ok || b.Info()&types.IsString == 0 {
+				return true
+			}
+			val, ok := rs.Value.(*ast.Ident)
+			if !ok {
+				return true
+			}
+			ast.Inspect(rs.Body, func(m ast.Node) bool {
+				as, ok := m.(*ast.AssignStmt)
+				if !ok || len(as.Lhs) != 1 || !e.isRestorerField(info, ast.Unparen(as.Lhs[0]), "lines") {
+					return true
+				}
+				n++
+				pc, okp := pathCond(c, rs.Body.List, as)
+				eq, dec := equivalentGuards(orTrue(pc), val.Name+` == '\n'`)
+				e.Run.Check("R-CURSOR", load.FuncName(fd)+": inside a text a line start is recorded for exactly its newline characters", e.Prog.Pos(as.Pos()), okp && dec && eq,
+					"the line table is extended under «"+pc+"» (specified: `"+val.Name+` == '\n'`+"`): the lines inside a multi-line comment or raw string are not recorded (everything behind it is printed on its first line), or a line start is recorded for every other character")
+				return true
+			})
+			return true
+		})
+	}
+	e.Run.Analysed("R-CURSOR line starts recorded inside texts", n)
 }
